@@ -24,6 +24,11 @@ Definition doc_upper_name (name : string) : bool :=
   re_const_name (chars name) && (2 <=? String.length name).
 Definition has_lower (name : string) : bool := existsb is_lower_char (chars name).
 
+(* the UPPER_CASE convention for constant names: at least two characters, at least one letter, no lower-case letter
+   (digits and underscores anywhere: MAX_SIZE, _POOL_SIZE, __CACHE_SLOTS, V2_LIMIT, MAX_) *)
+Definition spec_upper_name (name : string) : bool :=
+  existsb is_upper_char (chars name) && negb (existsb is_lower_char (chars name)) && (2 <=? String.length name).
+
 (* test files: test_*.py, *_test.py; *.test.ts, *.spec.ts (and test_* / *_test.* names, tests/ and test/
    directories); Rust has no test-file rule (test code is marked by attributes) *)
 Definition spec_is_test_file (l : mlang) (path : string) : bool :=
@@ -51,7 +56,7 @@ Definition lit_is_numeric (l : lit) : bool := match l with LInt _ _ _ _ | LFloat
 Definition spec_upper_defs (f : file) : nat :=
   sum_nat (map (fun sc => match sc_kind sc with
                           | STop => List.length (filter (fun s => match s_ctx s, s_lits s with
-                                                                   | CUpper, [l] => lit_is_numeric l
+                                                                   | CUpper, [l] => lit_is_numeric l && doc_upper_name (s_name s)
                                                                    | _, _ => false
                                                                    end) (sc_sites sc))
                           | _ => 0
@@ -137,8 +142,9 @@ Definition lit_ok (lg : mlang) (l : lit) : bool :=
     && match lg with
        | MPy => String.eqb sfx ""
        | MTs => String.eqb sfx "" || String.eqb sfx "n"
-       | MRs => String.eqb sfx "" || suffix_in sfx int_suffixes
-                || match r with RDec => suffix_in sfx float_suffixes | _ => false end
+       | MRs => match r with RHexU | ROctU | RBinU => false | _ => true end        (* Rust has lower-case prefixes only *)
+                && (String.eqb sfx "" || suffix_in sfx int_suffixes
+                    || match r with RDec => suffix_in sfx float_suffixes | _ => false end)
        end
   | LFloat ip fp ex sfx =>
     digits_ok 10 ip && no_leading_zero ip
@@ -171,12 +177,17 @@ Definition ctx_ok (lg : mlang) (k : skind) (c : ctx) : bool :=
 Definition single_lit_ctx (c : ctx) : bool :=
   match c with CArg | CElts | CUpperTuple | CTsEnum | CDictKeys | CRange | CDecorator | CNested | CMacro => false | _ => true end.
 
-Definition name_ok (c : ctx) (name : string) : bool :=
-  if ctx_is_const_def c then doc_upper_name name
-  else has_lower name && negb (String.eqb name "range") && negb (String.eqb name "enumerate").
+(* a constant-definition context binds an UPPER_CASE name, every other context a name that is not UPPER_CASE (so `N = 5`,
+   `Max_val = 5`, `_ = 5`, `_1 = 5` are ordinary assignments); Rust const / static items are exempt whatever their name *)
+Definition name_ok (lg : mlang) (c : ctx) (name : string) : bool :=
+  match lg with
+  | MRs => true
+  | _ => if ctx_is_const_def c then match c with CTsEnum => true | _ => spec_upper_name name end
+         else negb (spec_upper_name name) && negb (String.eqb name "range") && negb (String.eqb name "enumerate")
+  end.
 
 Definition site_good (lg : mlang) (k : skind) (s : site) : bool :=
-  ctx_ok lg k (s_ctx s) && name_ok (s_ctx s) (s_name s)
+  ctx_ok lg k (s_ctx s) && name_ok lg (s_ctx s) (s_name s)
   && match s_lits s with [] => false | [_] => true | _ => negb (single_lit_ctx (s_ctx s)) end
   && match s_ctx s with CMatch => forallb lit_is_numeric (s_lits s) | _ => true end      (* a pattern `case True` is no constant *)
   && forallb (lit_ok lg) (s_lits s).
